@@ -15,7 +15,7 @@ gvars == <<vars, hist, nb, at>>
 GInit == Init /\ hist = <<>> /\ nb = 0 /\ at \in [{"stop", "conc", "raise"} -> 0..(K * T)]
 
 GNext ==
-  \/ (PLoop \/ PPut \/ PExit \/ SrcReturn \/ MLoop \/ MWake \/ MUnpause \/ MShutWorkers \/ MShutProducer)
+  \/ (PStart \/ PLoop \/ PPut \/ PExit \/ SrcReturn \/ MLoop \/ MWake \/ MUnpause \/ MShutWorkers \/ MShutProducer)
        /\ UNCHANGED <<hist, nb, at>>
   \/ \E w \in Workers : (WGet(w) \/ ItemDone(w)) /\ UNCHANGED <<hist, nb, at>>
   \/ \E w \in Workers : BodyDone(w) /\ hist' = Append(hist, <<"body", witem[w], wtask[w]>>)
